@@ -1,11 +1,12 @@
 #!/bin/sh
-# Offline setup after a fresh restore: generate the Coq Makefile, build the whole development (full .vo),
-# and warm the Go build of the harness module against /repo.
-set -e
+# Offline setup after a fresh restore: generate _CoqProject + Makefile, build the whole Coq development (full .vo, no -vos),
+# and warm the Go build of the harness drivers against /repo. Checks rebuild whatever they need themselves; a failure
+# here is not fatal for them (each check reports an undischarged obligation if its own build fails).
 cd "$(dirname "$0")"
 export GOFLAGS=-mod=mod GOPROXY=off GOSUMDB=off GOTOOLCHAIN=local
-(cd coq && coq_makefile -f _CoqProject -o Makefile && timeout 3000 make -j16 >/dev/null)
-cp /repo/go.sum harness/go.sum
 mkdir -p harness/bin evidence replays .work
-(cd harness && go build -tags verif -o bin/ ./cmd/... ) || true
+python3 -c "import sys; sys.path.insert(0,'lib'); import core; core.Check('SETUP','quick',1).ensure_makefile()"
+(cd coq && timeout 3000 make -k -j16 >/dev/null 2>.make.err) || echo "setup: coq build incomplete (see coq/.make.err)"
+cp /repo/go.sum harness/go.sum
+(cd harness && for d in cmd/*/; do n=$(basename "$d"); go build -tags verif -o "bin/$n" "./cmd/$n" 2>/dev/null || echo "setup: harness $n did not build"; done)
 echo setup done
